@@ -164,3 +164,52 @@ def campaigns(ctx):
         Campaign('expr', opgen.expressions(depth=2, max_items=4), check_expr, 700, 6000),
         Campaign('expr-large', opgen.expressions(depth=3, max_items=5), check_expr, 60, 600),
     ]
+
+
+def _small_ops():
+    def simple(**k):
+        return {'op': 'simple', 'hp': {}, 'mapper': None, 'apply': None, 'train': None, 'label': None, **k}
+
+    return [
+        lambda n: simple(name=n, mapper='st'),
+        lambda n: simple(name=n, mapper='fn'),
+        lambda n: simple(name=n, apply='st'),
+        lambda n: simple(name=n, train='st'),
+        lambda n: simple(name=n, label='st'),
+        lambda n: simple(name=n, label='fn'),
+        lambda n: simple(name=n, apply='st', train='st', label='st'),
+        lambda n: {'op': 'smapper', 'name': n, 'hp': {}},
+        lambda n: {'op': 'twice', 'name': n},
+        lambda n: {'op': 'siamese', 'name': n, 'hp': {}},
+        lambda n: {'op': 'mapreduce', 'name': n, 'mappers': [{'name': n + 'a', 'kind': 'st', 'hp': {}}, {'name': n + 'b', 'kind': 'fn', 'hp': {}}]},
+        lambda n: {'op': 'fullstack', 'name': n, 'nsplits': 2, 'bases': [simple(name=n + 'b', mapper='st')]},
+    ]
+
+
+def small_expressions(maxlen):
+    """Every expression of up to ``maxlen`` operators over the small operator alphabet, in every parenthesisation."""
+    import itertools
+
+    ops_ = _small_ops()
+    for n in range(1, maxlen + 1):
+        for combo in itertools.product(range(len(ops_)), repeat=n):
+            items = [ops_[k](f'o{i}') for i, k in enumerate(combo)]
+            if n == 1:
+                yield items[0]
+            elif n == 2:
+                yield {'op': 'seq', 'items': items}
+            else:
+                yield {'op': 'seq', 'items': items}  # ((a b) c)
+                yield {'op': 'seq', 'items': [items[0], {'op': 'seq', 'items': items[1:]}]}  # (a (b c))
+
+
+def enumerate_extra(ctx, shard, nshards):
+    """Exhaustive small scope: quick = all expressions of <=2 operators, thorough = <=3 operators x parenthesisations."""
+    ctx.campaign = 'expr'
+    n = 0
+    for k, expr in enumerate(small_expressions(3 if ctx.tier == 'thorough' else 2)):
+        if k % nshards != shard:
+            continue
+        check_expr(ctx, expr)
+        n += 1
+    ctx.extra['enumerated_small_scope'] = ctx.extra.get('enumerated_small_scope', 0) + n
